@@ -465,6 +465,17 @@ def restart_cases():
             k += 1
             crash_and_restart(w, k)
     faulty_restart(w, k)
+    # the next incarnation comes up with another configuration (an entry was removed: only ESP, or only AH, is left): what the
+    # previous one left in the kernel is flushed all the same
+    for lab, keep in (('esp-only', 0), ('ah-only', 1)):
+        confs2, addrs2, expect2 = build_confs(fam, [('a', 'b', [spec[0][2][keep]])])
+        w2 = w.fork()
+        before = (len(w2.endpoints['A'].kernel.sad), len(w2.endpoints['A'].kernel.spd))
+        w2.confs['A'] = confs2['A']
+        w2.step(('restart', 'A'))
+        probs = spd_problems(w2.endpoints['A'].kernel, expect2)
+        out.append(('restart-reconfigured:A:%s' % lab, [('restart-reconfigured:' + s2, m + ' [restart with the %s configuration, leftovers %r]'
+                                                          % (lab, before)) for s2, m in probs]))
     return out
 
 
